@@ -136,7 +136,7 @@ def gen(item, rng, tier):
                 rt = rng.randrange(0, 6)
                 slots.append({'t': 'ldr_deny' if load else 'str_deny', 'w': T.ldst_imm('ldr' if load else 'str', rt, 7, rng.randrange(0, 8)), 'rt': rt})
             continue
-        choices = ['mov', 'mov', 'dp16', 'dp16', 'dp16', 'movw', 'addw', 'str', 'ldr', 'mrs']
+        choices = ['mov', 'mov', 'dp16', 'dp16', 'dp16', 'movw', 'addw', 'str', 'ldr', 'mrs', 'ldrw', 'strw']
         if not (kind == 'udf' and special is not None and i < special):
             choices.append('cmp')           # a CMP before the UDF slot would invalidate its static pass/fail
         if last and rng.random() < 0.3:
@@ -164,6 +164,14 @@ def gen(item, rng, tier):
             slots.append({'t': 'mov', 'w': T.mov_w(rd, imm), 'rd': rd, 'imm': imm})
         elif t == 'addw':
             slots.append({'t': 'chg', 'w': T.add_w(rd, rd, 0x11 + i), 'rd': rd})
+        elif t in ('ldrw', 'strw'):
+            # 32-bit load/store whose second halfword starts with every Rt value, SP included (hw2[15:12] = 0b1101 looks like a B<c> halfword)
+            rt = rng.choice([rd, rd, 13 if t == 'ldrw' else rd, 12, 8])
+            off = rng.randrange(0, 16)
+            if t == 'ldrw':
+                slots.append({'t': 'ldr', 'w': T.ldr_w(rt, 6, 4 * off + rng.choice([0, 0x100, 0x300]) * 0), 'rd': rt, 'addr': P.DBASE + 4 * off})
+            else:
+                slots.append({'t': 'str', 'w': T.str_w(rt, 6, 4 * off), 'rt': rt, 'addr': P.DBASE + 4 * off})
         elif t == 'mrs':
             slots.append({'t': 'chg', 'w': T.mrs(rd), 'rd': rd, 'name': 'mrs', 'nonvacuous': rd not in written_before})        # 32-bit system instruction: conditional like any other
         elif t == 'cmp':
@@ -315,7 +323,7 @@ class ITObserver:
             bank = lambda n: postR[_phys(n, self.mode)], lambda n: preR[_phys(n, self.mode)]
             post_r, pre_r = bank
             flags_same = (post_cpsr >> 28) == nzcv
-            gpr_same = all(post_r(n) == pre_r(n) for n in range(13))
+            gpr_same = all(post_r(n) == pre_r(n) for n in range(14))
             mem_now = M.digest_of(M.peek(arm, P.DBASE, 0x100) + M.peek(arm, DENY, 0x20))
             mem_same = mem_now == self.last_mem
             self.last_mem = mem_now
